@@ -343,6 +343,26 @@ def find_type(D, name):
     return None
 
 
+_gudt = {}
+
+
+def global_udt_base(name):
+    """base type name of a predefined user type (date, timestamp, inst_ref<Timer>) as shipped in the library's
+    globals data (bridgepoint/schema.py), read with the harness reader"""
+    if not _gudt:
+        from . import sqlread
+        import bridgepoint.schema as bs
+        g = sqlread.parse(bs.globals)
+        names = {}
+        for table, _n, vals in g['inserts']:
+            if table == 'S_DT':
+                names[vals[0][1]] = vals[2]
+        for table, _n, vals in g['inserts']:
+            if table == 'S_UDT':
+                _gudt[names[vals[0][1]]] = names[vals[1][1]]
+    return _gudt.get(name)
+
+
 def resolve_core(D, name, depth=0):
     """pyxtuml column type of a modelled type name: core types 1-5 -> UPPER name, enum -> INTEGER, udt -> base, else None"""
     if name in SUPPORTED_CORE:
@@ -350,7 +370,8 @@ def resolve_core(D, name, depth=0):
     if name in CORE:
         return None
     if name in GLOBAL_UDT:
-        return None                     # date / timestamp / inst_ref<Timer>: user types of unsupported core types
+        base = global_udt_base(name)    # e.g. timestamp is a user type of integer in the shipped globals
+        return resolve_core(D, base, depth + 1) if base and depth < 10 else None
     t = find_type(D, name)
     if t is None or depth > 10:
         return None
